@@ -59,6 +59,13 @@ fn programs(quick: bool) -> Vec<(Program, bool)> {
     for var in [ReadVariant::MultiGet, ReadVariant::MultiGetIterator, ReadVariant::MultiGetMapIterator] {
         v.push((mk(format!("upsert(a);delete(b)||{:?}([a,b])", var), 10, vec![put(1, 2), put(2, 2)], vec![vec![ups_v(1), del(2)], vec![Op::MultiRead { keys: vec![1, 2], variant: var }]]), false));
     }
+    // a put that admission refuses never becomes readable, not even while the worker is still deciding
+    v.push((mk("put(c, heavier than the cache)||get(c)x2".into(), 4, vec![put(1, 2)], vec![vec![put(3, 5)], vec![get(3), get(3)]]), false));
+    {
+        let mut p = mk("put(c) refused for a hotter resident||get(c)x2".into(), 2, vec![put(1, 2), get(1), get(1), get(1)], vec![vec![put(3, 2)], vec![get(3), get(3)]]);
+        p.setup.buffer = 1;
+        v.push((p, false));
+    }
     // lazy iterators over a repeated key: every `next()` is a read of its own (per-element intervals), a write that
     // completes between two of them must be seen by the later one
     for var in [ReadVariant::MultiGetIterator, ReadVariant::MultiGetMapIterator] {
